@@ -121,7 +121,9 @@ func (d *Disk) Disarm() bool {
 	d.mu.Lock()
 	defer d.mu.Unlock()
 	d.armed = -1
-	return d.CrashFired
+	f := d.CrashFired
+	d.CrashFired = false
+	return f
 }
 
 // FailNextWrites makes the next n mutations fail with ErrDisk (no effect).
